@@ -10,22 +10,30 @@ enum read and written by the `rename`d names (union_types.rs `untagged_enum`, si
 -/
 namespace Oas3.Codec
 
+/-- an alternative without any structure of its own: a free-form object (`{type: object}`), a nullable one
+(`{type: [object, null]}`), the empty closed object (`{type: object, additionalProperties: false}`), or the empty schema `{}` -/
+inductive FreeKind | obj | objNull | objClosed | any
+  deriving DecidableEq, Repr
+
 /-- one alternative of a union schema -/
 inductive Alt
   | const (v : Str)
   | null
   | sch (s : S)
+  | free (k : FreeKind)
 
 /-- one variant of the emitted `#[serde(untagged)]` enum -/
 inductive UVar
   | unit (wire : Str)
   | newtype (t : Ty)
+  | value                      -- newtype variant around `serde_json::Value`
 
 def unionTy (fname : Str → Str) (vname : J → Str) : List Alt → List UVar
   | [] => []
   | .const v :: r => .unit v :: unionTy fname vname r
   | .null :: r => unionTy fname vname r
   | .sch s :: r => .newtype (typeOf fname vname s) :: unionTy fname vname r
+  | .free _ :: r => .value :: unionTy fname vname r
 
 def Alt.isConst : Alt → Bool
   | .const _ => true
